@@ -39,8 +39,15 @@ def hierarchies(draw):
     lines += ["type Ty0: %s" % names[k], "type Ty1: Ty0"]
     parents["Ty0"] = [names[k]]
     parents["Ty1"] = ["Ty0"]
+    # classes whose parents are instantiations of a generic class; one class reaches the same generic class twice, with
+    # different arguments, through two parents
+    lines += ["class Gp1: Collection[Int]", "class Gp2: Collection[Str]", "class Gq: Gp1, Gp2"]
+    parents["Gp1"] = []
+    parents["Gp2"] = []
+    parents["Gq"] = ["Gp1", "Gp2"]
     size = draw(st.sampled_from(["small", "small", "medium"]))  # medium only matters in the thorough tier
     return {"src": "\n".join(lines) + "\n", "user_parents": parents, "size": size,
+            "generic_parents": {"Gp1": "Collection[Int]", "Gp2": "Collection[Str]"},
             "pick": draw(st.integers(0, 10 ** 6))}
 
 
@@ -78,6 +85,10 @@ def build_universe(case, classes, tier):
                     (user[0], "Int", "Int")]:
         gens.append(add({"tuple": [N(a), N(b), N(c)]}, kind="generic", col="Tuple", args=(idx[a], idx[b], idx[c]),
                         text="(%s, %s, %s)" % (a, b, c)))
+    for b in ("Int", "Str", "Float"):
+        idx["Collection[%s]" % b] = add(N("Collection", N(b)), kind="generic", col="Collection", args=(idx[b],),
+                                        text="Collection[%s]" % b)
+        gens.append(idx["Collection[%s]" % b])
     # depth 2
     gens.append(add(N("List", N("List", N("Int"))), kind="generic", col="List", args=(idx["List[Int]"],)))
     gens.append(add(N("List", N("List", N("Float"))), kind="generic", col="List", args=(idx["List[Float]"],)))
@@ -178,9 +189,11 @@ class C20:
         yield {"src": "class U0\n    def f_u0: Int := 1\nclass U1: U0\n    def f_u1: Int := 1\nclass U2: U1\n    def f_u2: Int := 1\n"
                       "class U3\n    def f_u3: Int := 1\nclass U4: U0, U3\n    def f_u4: Int := 1\ntype Iface\n    def ifun(self) -> Int\n"
                       "class Impl: Iface\n    def ifun(self) -> Int => 1\nclass Err1(msg: Str): Exception(msg)\nclass Err2(msg: Str): Err1(msg)\n"
-                      "type Ty0: U2\ntype Ty1: Ty0\n",
+                      "type Ty0: U2\ntype Ty1: Ty0\nclass Gp1: Collection[Int]\nclass Gp2: Collection[Str]\nclass Gq: Gp1, Gp2\n",
                "user_parents": {"U0": [], "U1": ["U0"], "U2": ["U1"], "U3": [], "U4": ["U0", "U3"], "Iface": [],
-                                "Impl": ["Iface"], "Err1": ["Exception"], "Err2": ["Err1"], "Ty0": ["U2"], "Ty1": ["Ty0"]},
+                                "Impl": ["Iface"], "Err1": ["Exception"], "Err2": ["Err1"], "Ty0": ["U2"], "Ty1": ["Ty0"],
+                                "Gp1": [], "Gp2": [], "Gq": ["Gp1", "Gp2"]},
+               "generic_parents": {"Gp1": "Collection[Int]", "Gp2": "Collection[Str]"},
                "size": "medium", "pick": 0}
 
     def summarize(self, case):
@@ -249,6 +262,19 @@ class C20:
                 if j != f:
                     S[f][j] = S2[f][j] = 0
                     S[j][f] = S2[j][f] = 0
+        # Collection[..] terms are outside the universe of the statement (List / Set / Tuple / Dict); they are here as declared
+        # parents of user classes. A query between one of them and a tuple type ends in "Type 'T' is undefined" on the pinned
+        # tree (the parent Collection[T] of Tuple is looked up without its argument); the statement does not say that queries
+        # never err, so such an answer counts as "not assignable" and is counted
+        for c in [i for i in range(n) if "Collection[" in disp[i]]:
+            for j in range(n):
+                for M in (S, S2):
+                    if M[c][j] == 2:
+                        M[c][j] = 0
+                        stats.inc("collection_query_errs_counted_as_not_assignable")
+                    if M[j][c] == 2:
+                        M[j][c] = 0
+                        stats.inc("collection_query_errs_counted_as_not_assignable")
         # no errors / panics
         for i in range(n):
             for j in range(n):
@@ -306,6 +332,13 @@ class C20:
                 if bool(S[i][j]) != want:
                     return {"what": "%s >= %s is %s but the declared hierarchy says %s" % (ci, cj, bool(S[i][j]), want),
                             "ancestors_of_" + cj: sorted(anc[cj])}
+        # a class is assignable to the instantiation of a generic class it declares as parent (what its descendants reach through
+        # it follows from transitivity, checked above)
+        for c, g in (case.get("generic_parents") or {}).items():
+            if c in idx and g in idx:
+                stats.inc("declared_generic_parents")
+                if not S[idx[g]][idx[c]]:
+                    return {"what": "%s is not assignable to its declared parent %s" % (c, g)}
         # an annotation-built name answers exactly like the constructed name of the same type
         for u, (t, tags) in enumerate(terms):
             if tags["kind"] == "twin":
